@@ -69,7 +69,7 @@ func TestForcedGrid(t *testing.T) {
 	st := vlib.NewStats("forced-grid")
 	st.Exhaustive = true
 	defer func() { st.Write(os.Getenv("VERIF_OUT")) }()
-	deck := pf.NewStandardDeckCards()
+	deck := baseDeck(false)
 	var cfgs []*Cfg
 	for n := 2; n <= 4; n++ {
 		total := 1
@@ -438,7 +438,7 @@ func (r *tinyRun) fail(h *Hand, v *vlib.Violation) {
 }
 
 func tinyCfg(bank []int64) *Cfg {
-	return &Cfg{N: len(bank), Dealer: 0, SB: 1, BB: 2, Limit: "no", Hole: 2, Bank: bank, Deck: pf.NewStandardDeckCards(), Theme: "fixed"}
+	return &Cfg{N: len(bank), Dealer: 0, SB: 1, BB: 2, Limit: "no", Hole: 2, Bank: bank, Deck: baseDeck(false), Theme: "fixed"}
 }
 
 func runTiny(prop string, bank []int64) *tinyRun {
